@@ -1,7 +1,7 @@
 (** Facts about the generated tables (coq/Tables.v is regenerated from /repo on every run, so these
     finite checks are re-proved against what the source says now). *)
 From Pakhi Require Import Base Float64 Syntax Tables Lexer.
-Open Scope N_scope.
+Local Open Scope N_scope.
 
 Lemma assoc_N_In {A} k (l : list (N * A)) v : assoc_N k l = Some v -> In (k, v) l.
 Proof.
